@@ -6,6 +6,7 @@ import (
 	"os"
 	"path/filepath"
 	"sort"
+	"strings"
 
 	"github.com/els0r/goProbe/v4/pkg/goDB/encoder/encoders"
 	"github.com/els0r/goProbe/v4/pkg/goDB/storage/gpfile"
@@ -62,6 +63,23 @@ var c01Classes = []payloadClass{
 	{"9000B-half-half", func(c int) []byte {
 		return append(fixture.Compressible(uint64(c), 4500), fixture.LCG(uint64(c+7), 4500)...)
 	}},
+	// XL classes: beyond the block / window sizes of the compression libraries (zstd block 128 KiB,
+	// windows of 1 MiB and more). Only used where compression implementations meet (C02, C07).
+	{"XL-131073B-compressible", func(c int) []byte { return fixture.Compressible(uint64(c+11), 131073) }},
+	{"XL-1200000B-half-half", func(c int) []byte {
+		return append(fixture.Compressible(uint64(c+12), 600000), fixture.LCG(uint64(c+13), 600000)...)
+	}},
+	{"XL-2100000B-compressible", func(c int) []byte { return fixture.Compressible(uint64(c+14), 2100000) }},
+}
+
+func c01ClassIndex(name string) int {
+	for i, c := range c01Classes {
+		if c.name == name {
+			return i
+		}
+	}
+	explore.HarnessErrorf("unknown payload class %q", name)
+	return -1
 }
 
 type c01Alt struct {
@@ -78,6 +96,9 @@ func c01Alts(tier string) []c01Alt {
 	}
 	a := []c01Alt{{0, false}}
 	for ci := 1; ci < len(c01Classes); ci++ {
+		if strings.HasPrefix(c01Classes[ci].name, "XL-") {
+			continue
+		}
 		big := len(c01Classes[ci].gen(0)) >= 70000
 		if tier == "thorough" {
 			a = append(a, c01Alt{ci, false}, c01Alt{ci, true})
